@@ -70,7 +70,7 @@ def one(sid, rnd, nx, ni, with_dir, hold, invoke_pos):
             inv = s.invoke(size=4, seed=9)
             continue
         if a == "HOLD":
-            s.sleep(40)
+            s.sleep(60)
             continue
         kind, who = a
         if who.startswith("ext:") and who not in execd:
